@@ -11,7 +11,7 @@ use crate::Array;
 // size copies): offsets_slice() == prefix sums [0, 2, 2, 2, 5] (monotone, starts at 0, null slot has an
 // empty range), values_slice() == concatenation of the appended values, validity bits == [1, 0, 1, 1],
 // len() == 4.
-// @unit name=bytes_builder_state_model props=C01 kind=bounded bound=schedule_of_4_appends_value_lengths=(2,null,0,3) fns=GenericByteBuilder::append_value,GenericByteBuilder::append_null,GenericByteBuilder::offsets_slice,GenericByteBuilder::values_slice,GenericByteBuilder::validity_slice tier=thorough note=not_confirmed_at_checkpoint
+// @unit name=bytes_builder_state_model props=C01 kind=bounded bound=schedule_of_4_appends_value_lengths=(2,null,0,3) fns=GenericByteBuilder::append_value,GenericByteBuilder::append_null,GenericByteBuilder::offsets_slice,GenericByteBuilder::values_slice,GenericByteBuilder::validity_slice tier=quick
 #[kani::proof]
 #[kani::unwind(10)]
 #[kani::stub(alloc::fmt::format, stub_format)]
@@ -34,7 +34,7 @@ fn bytes_builder_state_model() {
 }
 
 // Contract (C01, stretch): finish() after the same schedule returns a Binary array equal to the model.
-// @unit name=bytes_builder_finish_model props=C01 kind=bounded bound=schedule_of_4_appends_value_lengths=(2,null,0,3) fns=GenericByteBuilder::finish tier=thorough timeout=900 mem=10 note=not_confirmed_at_checkpoint
+// @unit name=bytes_builder_finish_model props=C01 kind=bounded bound=schedule_of_4_appends_value_lengths=(2,null,0,3) fns=GenericByteBuilder::finish timeout=900 mem=10 tier=thorough note=not_confirmed_not_run
 #[kani::proof]
 #[kani::unwind(10)]
 #[kani::stub(alloc::fmt::format, stub_format)]
